@@ -146,6 +146,23 @@ theorem load_class {c : Codec} {f : Bytes} {E : Option Nat} {out : Nat → Bytes
     (by simpa [openRaw, openRead] using hr)
   simpa [openRaw, openRead] using this
 
+/-- `_read_bytes(fp, size)` (the exact-length loop that fetches array data) on any such file: it terminates
+(never out of fuel: at most two reads), and returns EXACTLY the next `size` bytes of the stream or raises
+ValueError when fewer are left — never a short or different result. -/
+theorem read_bytes_terminates_exact {c : Codec} {f : Bytes} {E : Option Nat} {out : Nat → Bytes}
+    (law : StreamLaw c f E out) (size : Nat) {fuel : Nat} (hf : rawBound f + 2 ≤ fuel) :
+    (size ≤ (out f.length).length →
+      ∃ s', readBytes (rawSource c) fuel size (openRaw f) = .ok (s', (out f.length).take size)) ∧
+    ((out f.length).length < size →
+      readBytes (rawSource c) fuel size (openRaw f) = .error (.exc .valueError)) := by
+  obtain ⟨cs, hI⟩ := openRaw_inv law
+  have h := readBytes_spec (raw_regular law) hf size hI
+  simp only [openRaw, openRead, Nat.sub_zero, List.drop_zero] at h
+  refine ⟨fun hle => ?_, fun hlt => ?_⟩
+  · obtain ⟨s', h1, _⟩ := h.1 hle
+    exact ⟨s', by simpa [openRaw, openRead] using h1⟩
+  · simpa [openRaw, openRead] using h.2 hlt
+
 /-- Consequently (`_cached_call`: `try: load … except Exception: recompute`): a damaged zlib/gzip cache entry
 is either served as the original value or recomputed — the cached call never hangs. -/
 theorem damaged_entry_recomputes {c : Codec} {f : Bytes} {E : Option Nat} {out : Nat → Bytes}
